@@ -8,5 +8,5 @@ mkdir -p .work evidence replays
 cat /repo/go.sum extra.sum | sort -u > go.sum
 ./check build
 go1.26 build -race -o .work/racepass ./cmd/racepass || true
-go1.26 vet -tags verif ./specmodel/ >/dev/null 2>&1 || true
+go1.26 test -count=1 ./specmodel/   # the reference model against the examples of the specification
 echo "setup ok"
